@@ -234,6 +234,40 @@ static std::string step(const Toks& t)
 		if ((*s)[s.length()] != 0) return "err unterminated";
 		return lenhex(s);
 	}
+	if ((op == "fixw" || op == "safe") && t.size() == 3) {
+		// the wide scratch area: SafeString -> dataw(); the caller stores units; ~SafeString -> fixW() converts in place
+		std::vector<long long> v = ints(t[2]);
+		std::string b = op == "fixw" ? unhex(t[1]) : std::string();
+		String* ps = op == "fixw" ? new String(b.data(), (int)b.size()) : new String();
+		SafeString* ss = op == "safe" ? new SafeString(*ps, (int)(num(t[1]) % 64)) : new SafeString(*ps);
+		wchar_t* w = *ss;
+		long off = (char*)w - ps->data();
+		int cap = ps->cap();
+		long room = (cap - off) / 4;
+		if (off < 0 || off % 4 || room < 1) { delete ss; delete ps; return "err scratch-geometry"; }
+		size_t keep = v.size() < (size_t)(room - 1) ? v.size() : (size_t)(room - 1);
+		for (size_t i = 0; i < keep; i++) w[i] = (wchar_t)(int)v[i];
+		w[keep] = 0;
+		for (long i = (long)keep + 1; i < room; i++) w[i] = 0x41414141;   // a read past the terminator would show in the result
+		std::string out = "off=" + str(off) + " cap=" + str(cap);
+		delete ss;   // fixW()
+		if (ps->cap() != cap) { delete ps; return "err fixW-reallocated"; }
+		if (ps->length() != (int)strlen(**ps)) { delete ps; return "err length-not-strlen"; }
+		if (ps->length() >= ps->cap()) { delete ps; return "err length-beyond-cap"; }
+		out += " " + lenhex(*ps);
+		delete ps;
+		return out;
+	}
+	if (op == "warr" && t.size() == 2) {
+		std::vector<long long> v = ints(t[1]);
+		Array<wchar_t> a;
+		for (size_t i = 0; i < v.size(); i++) a << (wchar_t)(int)v[i];
+		a = a.clone();   // exact-size block
+		String s(a);
+		if (s.length() < 0 || s.length() >= s.cap()) return "err length-beyond-cap";
+		if ((*s)[s.length()] != 0) return "err unterminated";
+		return lenhex(s);
+	}
 	if (op == "sblk" && t.size() == 3) {
 		long long lo = num(t[1]), cnt = num(t[2]);
 		unsigned long long h = 14695981039346656037ULL;
